@@ -318,6 +318,17 @@ def main() -> int:
     for line in faults:
         print("CHECKER-FAULT:", line)
 
+    from spec.laws import law_status_summary
+
+    laws = law_status_summary()
+    if a.tier == "thorough":
+        lp = subprocess.run(["sh", os.path.join(VERIF, "lean", "check.sh")], capture_output=True, text=True)
+        if lp.returncode == 0:
+            os.makedirs(os.path.join(VERIF, "lean", "build"), exist_ok=True)
+            open(os.path.join(VERIF, "lean", "build", "PROVED.txt"), "w").write(lp.stdout)
+            laws = law_status_summary()
+        else:
+            faults.append("lean/check.sh failed: " + (lp.stdout + lp.stderr)[-300:])
     funcs = sorted(k for k, m in metas.items() if not m.get("skipped"))
     skipped_funcs = {k: m["skipped"] for k, m in metas.items() if m.get("skipped")}
     assumptions = sorted(set(cfg.get("assumptions", []) + extra_assumptions + [
@@ -325,7 +336,8 @@ def main() -> int:
         "z3 soundness",
         "closed world: only the classes defined in /repo (custom RowFilter/Reordering/MarkerRelation subclasses excluded)",
         "partial correctness: termination is not proved",
-    ] + unverified_impls(repo, reg, pid) + [f"assumed contract: {k}" for m in metas.values() for k in m.get("assumed_contracts_used", [])]))
+    ] + ([f"law library spec/laws.py: {len(laws['lean_proved'])} laws machine-checked in Lean (lean/check.sh); not Lean-proved, bounded-checked only: {laws['assumed_bounded_checked_only']}"]
+         if any("law" in x for x in cfg.get("assumptions", [])) else []) + unverified_impls(repo, reg, pid) + [f"assumed contract: {k}" for m in metas.values() for k in m.get("assumed_contracts_used", [])]))
     ev = {
         "property_id": pid,
         "tier": a.tier,
@@ -343,6 +355,9 @@ def main() -> int:
             "by_backend": by_solver,
             "solver_seconds": round(solver_s, 3),
             "samples": samples,
+            "law_library": {"lean_proved": len(laws["lean_proved"]), "assumed_bounded_checked_only": laws["assumed_bounded_checked_only"],
+                            "note": "Lean theorems in lean/RelAlg/Laws.lean over the concrete model lean/RelAlg/Spec.lean (statements transcribed by hand from spec/laws.py, "
+                                    "13 of them with the hypothesis that rows are masked to their column set, which every operator preserves: lean/RelAlg/Lemmas.lean)"},
             "slowest_discharged": sorted([(r.get("seconds", 0), r["label"]) for r in all_results if r["status"] == PROVED], reverse=True)[:8],
             "known_findings_seen": known_seen,
             "bounded_standins": list(bounded_seen.values()),
